@@ -107,30 +107,53 @@ def run(chk):
                   f"command frame decoded with {fmt!r} into {names}: expected (cs, node id) from bytes 0 and 1")
     else:
         chk.unk("R2", f"{NMT}:NmtBase.on_command | unpack", f.loc(), "no `cmd, node_id = struct.unpack_from(...)`")
+    from .common import substitute_src, conj_of_facts
+    from ..fold import Unfoldable
     for st in stores:
         facts = [(e, p) for e, p in ff.facts_at(st)]
-        filt = None
-        member = False
-        for e, p in facts:
-            if not p:
-                continue
-            if isinstance(e, ast.Compare) and isinstance(e.ops[0], ast.In) and names and src(e.left) == names[1]:
-                filt = e.comparators[0]
-            if isinstance(e, ast.Compare) and isinstance(e.ops[0], ast.In) and src(e.comparators[0]) == "COMMAND_TO_STATE" \
-                    and names and src(e.left) == names[0]:
-                member = True
-        if filt is None or not isinstance(filt, (ast.Tuple, ast.List, ast.Set)):
+        # address filter: the conditions on the addressed node id, evaluated for broadcast (0), the own id and a foreign id
+        addr = [(e, p) for e, p in facts if names and any(isinstance(x, ast.Name) and x.id == names[1] for x in ast.walk(e))]
+        if not addr:
             chk.bad("R2", f"{NMT}:NmtBase.on_command | address filter", f.loc(st),
-                    "the state store is not guarded by a membership test of the addressed node id; "
-                    f"facts: {[src(e) for e, p in facts if p]}")
+                    "the state store is not guarded by a test of the addressed node id; " f"facts: {[src(e) for e, p in facts if p]}")
         else:
-            elts = {ff.norm(e) for e in filt.elts}
-            chk.check(elts == {"self.id", "0"}, "R2", f"{NMT}:NmtBase.on_command | address filter", f.loc(st),
-                      f"commands are accepted for node ids {sorted(elts)}; must be exactly own id and 0 (broadcast)")
-        chk.check(member, "R2", f"{NMT}:NmtBase.on_command | known command", f.loc(st),
-                  "state store not guarded by `cmd in COMMAND_TO_STATE`: undefined commands would change the state or raise")
-        val = ff.norm(st.value) if isinstance(st, ast.Assign) else "?"
-        chk.check(names is not None and val == f"COMMAND_TO_STATE[{names[0]}]", "R2",
+            accepted, undecided = set(), None
+            for v in (0, 5, 7):
+                try:
+                    ok_v = all(bool(folder.fold(substitute_src(e, {names[1]: v, "self.id": 5}), sc)) == p for e, p in addr)
+                except Unfoldable as ex:
+                    undecided = str(ex)
+                    break
+                if ok_v:
+                    accepted.add({0: "0 (broadcast)", 5: "the own id", 7: "a foreign id"}[v])
+            if undecided is not None:
+                chk.unk("R2", f"{NMT}:NmtBase.on_command | address filter", f.loc(st), f"conditions {[src(e) for e, _p in addr]} do not evaluate: {undecided}")
+            else:
+                chk.check(accepted == {"0 (broadcast)", "the own id"}, "R2", f"{NMT}:NmtBase.on_command | address filter", f.loc(st),
+                          f"commands are accepted for {sorted(accepted) or 'no node id'}; must be exactly the own id and 0 (broadcast)")
+        val_e = st.value if isinstance(st, ast.Assign) else None
+        if isinstance(val_e, ast.Name) and ff.one_def(val_e.id) is not None:
+            vname, val_e = val_e.id, ff.one_def(val_e.id)
+        else:
+            vname = None
+        val = ff.norm(val_e, subst=False) if val_e is not None else "?"
+        cs = names[0] if names else "?"
+        member = any(p and isinstance(e, ast.Compare) and isinstance(e.ops[0], ast.In) and src(e.comparators[0]) == "COMMAND_TO_STATE" and src(e.left) == cs for e, p in facts)
+        via_get = val == f"COMMAND_TO_STATE.get({cs})" and vname is not None
+        if via_get:
+            present = any((src(e) == f"{vname} is not None" and p) or (src(e) == f"{vname} is None" and not p) for e, p in facts)
+            truthy = any((src(e) == vname and p) or (src(e) == f"not {vname}" and not p) for e, p in facts)
+            if truthy and not present:
+                chk.bad("R2", f"{NMT}:NmtBase.on_command | known command", f.loc(st),
+                        f"the looked-up state `{vname}` is tested by truth value: state 0 (INITIALISING, the target of Reset Node / Reset Communication) is falsy, "
+                        "so the reset commands are dropped and the node keeps its old state")
+            else:
+                chk.check(present, "R2", f"{NMT}:NmtBase.on_command | known command", f.loc(st),
+                          f"state store not guarded by `{vname} is not None` after COMMAND_TO_STATE.get(): undefined commands would store None")
+        else:
+            chk.check(member, "R2", f"{NMT}:NmtBase.on_command | known command", f.loc(st),
+                      "state store not guarded by `cmd in COMMAND_TO_STATE`: undefined commands would change the state or raise")
+        chk.check(names is not None and (val == f"COMMAND_TO_STATE[{cs}]" or via_get), "R2",
                   f"{NMT}:NmtBase.on_command | stored state", f.loc(st), f"stores {val}, expected COMMAND_TO_STATE[<cs byte>]")
 
     # NmtBase.send_command: state follows the table
